@@ -99,6 +99,26 @@ pub fn rewrite_js<R: Read>(
     })
 }
 
+#[cfg(datadog_dd_native_iast_rewriter_js_verif)]
+pub mod verif_tap {
+    //! verification-only taps: the harness reads the programs the pipeline held
+    use std::cell::RefCell;
+    use swc_ecma_ast::Program;
+
+    thread_local! {
+        pub static PARSED: RefCell<Option<Program>> = const { RefCell::new(None) };
+        pub static TRANSFORMED: RefCell<Option<Program>> = const { RefCell::new(None) };
+    }
+
+    pub fn parsed(program: &Program) {
+        PARSED.with(|p| *p.borrow_mut() = Some(program.clone()));
+    }
+
+    pub fn transformed(program: &Program) {
+        TRANSFORMED.with(|p| *p.borrow_mut() = Some(program.clone()));
+    }
+}
+
 pub fn print_js<'a>(
     code: &'a str,
     source_map: &str,
@@ -180,8 +200,14 @@ fn transform_js<R: Read>(
 ) -> Result<RewrittenOutput, Error> {
     let mut transform_status = TransformStatus::not_modified(config);
 
+    #[cfg(datadog_dd_native_iast_rewriter_js_verif)]
+    verif_tap::parsed(&program);
+
     let mut block_transform_visitor = BlockTransformVisitor::default(&mut transform_status, config);
     program.visit_mut_with(&mut block_transform_visitor);
+
+    #[cfg(datadog_dd_native_iast_rewriter_js_verif)]
+    verif_tap::transformed(&program);
 
     let literals_result = get_literals(config.literals, file, &mut program, compiler);
     let comments = &compiler.comments().clone() as &dyn Comments;
